@@ -156,3 +156,17 @@ Qed.
 
 Lemma stored_full : forall ir s, store_ok ir = true -> stored_sem ir s = s ++ [0].
 Proof. intros ir s H. unfold stored_sem. now rewrite H. Qed.
+
+(** an accepted wrapper runs exactly as [intern_sem] *)
+Lemma wrap_ok_sem : forall w ir o tbl s, wrap_ok w = true ->
+  wrun ir o s (w_body w) (tbl, 0) = Some (intern_sem ir o tbl s)
+  /\ w_static_locals w = 0%nat /\ w_data_symbols w = 0%nat.
+Proof.
+  intros w ir o tbl s H. unfold wrap_ok in H.
+  apply andb_true_iff in H. destruct H as [H H3].
+  apply andb_true_iff in H. destruct H as [H1 H2].
+  apply Nat.eqb_eq in H2. apply Nat.eqb_eq in H3.
+  split; [| split; assumption].
+  destruct (w_body w) as [| [] [| [] [| [] [| ? ?]]]]; try discriminate H1.
+  reflexivity.
+Qed.
